@@ -66,6 +66,16 @@ func main() {
 			o.Lines(lines, rep)
 		}
 		rep.Close()
+	case "shipped":
+		// the shipped message specs read back from the live Go values, in tree syntax
+		for _, name := range impl.ShippedNames {
+			t, skipped, err := impl.TreeOfMsgSpec(impl.Shipped(name))
+			if err != nil {
+				fmt.Fprintf(w, "%s\tERROR %v\n", name, err)
+				continue
+			}
+			fmt.Fprintf(w, "%s\t%s\t%v\n", name, t.String(), skipped)
+		}
 	default:
 		os.Exit(2)
 	}
